@@ -29,33 +29,85 @@ def platform_for(plan, k):
     return {1: "sgx", 2: "tcp"}.get(k % 6, "ledger")
 
 
-def run_plan(plan, version, fault_kind_impl=None, platform="ledger"):
-    """One history on a fresh serving manager: faulted command, then follow-ups."""
-    world, proto = mgr.serving_manager(version=version, platform=platform)
-    init_seq = [e["apdu"] for e in world.log if e["ev"] == "apdu"]
-    ninit = len(init_seq)
+class _MemPin:
+    """A PIN object as the bring-up uses it (no change due)."""
+
+    def __init__(self, pin):
+        self._pin = pin
+
+    def get_pin(self):
+        return self._pin
+
+    def needs_change(self):
+        return False
+
+
+def boot_reference(version):
+    """The bring-up of a manager that finds the device locked in its bootloader, as a sequence of tokens: APDUs and
+    the closing / re-opening of the link that is part of it (the app is launched, the device re-enumerates)."""
+    from ..simdev import MODE_BOOT
+    d = SimDevice(platform="ledger", mode=MODE_BOOT)
+    d.exit_modes = [MODE_SIGNER]
+    world, proto = mgr.serving_manager(device=d, version=version, platform="ledger", pin=_MemPin(d.pin))
+    toks = []
+    for e in world.log:
+        if e["ev"] == "apdu":
+            toks.append(bytes(e["apdu"]))
+        elif e["ev"] in ("close", "open"):
+            toks.append(e["ev"])
+    return toks[1:] if toks and toks[0] == "open" else toks     # (the first opening is the repair's own)
+
+
+def run_plan(plan, version, fault_kind_impl=None, platform="ledger", boot=False, boot_seq=None, bt_pos=None):
+    """One history on a fresh serving manager: faulted command, then follow-ups. boot: the device is power-cycled
+    at the fault and waits locked in its bootloader, so the repair goes through unlock and app launch."""
+    if boot:
+        dev = SimDevice(platform="ledger", mode=MODE_SIGNER)
+        world, proto = mgr.serving_manager(device=dev, version=version, platform=platform, pin=_MemPin(dev.pin))
+    else:
+        world, proto = mgr.serving_manager(version=version, platform=platform)
+    signer_seq = [e["apdu"] for e in world.log if e["ev"] == "apdu"]
+    refs = {"seq": signer_seq}
+    init_seq = signer_seq
+    ninit = len(boot_seq) if boot else len(signer_seq)
     events = []
     state = {"ptr": 0, "cmd_seen": False}
 
     def on_event(ev):
+        from ..simdev import MODE_BOOT
+        init_seq = refs["seq"]
+        ninit = len(init_seq)
+        p = state["ptr"]
+        if boot and ev["ev"] in ("close", "open") and not state["cmd_seen"] and 0 < p < ninit \
+                and init_seq[p] == ev["ev"] and ev.get("ok", True):
+            # the re-opening that is part of the bootloader bring-up: one of its steps, not a new repair
+            events.append({"k": "apdu", "init": p + 1, "fault": "none", "n": ninit})
+            state["ptr"] = p + 1
+            return
         if ev["ev"] == "close":
             events.append({"k": "close"})
             state["ptr"], state["cmd_seen"] = 0, False
         elif ev["ev"] == "open":
             events.append({"k": "open", "ok": "t" if ev["ok"] else "f"})
             state["ptr"], state["cmd_seen"] = 0, False
+            # which bring-up this opening starts depends on where it finds the device
+            refs["seq"] = list(boot_seq) if (boot and world.device.mode == MODE_BOOT) else signer_seq
         elif ev["ev"] == "apdu":
+            init_seq = refs["seq"]
+            ninit = len(init_seq)
             init = 0
             p = state["ptr"]
             if not state["cmd_seen"] and p < ninit and ev["apdu"] == init_seq[p] \
                     and state.get("since_open", True):
                 init = p + 1
-                if "fault" not in ev:
+                if "fault" not in ev or (boot and ev.get("fault") == "drop"):
                     state["ptr"] = p + 1
             else:
                 state["cmd_seen"] = True
             f = ev.get("fault", "none")
-            events.append({"k": "apdu", "init": init, "fault": f})
+            if boot and init and f == "drop":
+                f = "none"      # leaving the bootloader menu: the device's answer is to drop off the bus
+            events.append({"k": "apdu", "init": init, "fault": f, "n": ninit if init else 0})
     world.on_event = on_event
     bt = plan.get("btimeout", 0)
     nreq = 2 + plan["connfail"] + (1 if bt else 0)
@@ -81,9 +133,18 @@ def run_plan(plan, version, fault_kind_impl=None, platform="ledger"):
         if r == 1:
             world.fault_hook = None
             world.connect_failures = plan["connfail"]
+            if boot:
+                from ..simdev import MODE_BOOT
+                world.device.mode = MODE_BOOT          # power-cycled: locked, in the bootloader
+                world.device.exit_modes = [MODE_SIGNER]
         if bt and r == 1 + plan["connfail"]:
             # the first reconnection that opens: its bt-th bring-up exchange times out
-            world.faults = {bt - 1: ("timeout",)}
+            if boot:
+                # (bt_pos-th APDU of the long bring-up; the re-opening inside it is not an exchange)
+                n_apdu_before = sum(1 for t in boot_seq[:bt_pos] if not isinstance(t, str))
+                world.faults = {n_apdu_before: ("timeout",)}
+            else:
+                world.faults = {bt - 1: ("timeout",)}
         n0 = len(world.log)
         o = mgr.handle_line(proto, json.dumps(req).encode())
         if r == 0:
@@ -98,6 +159,7 @@ def run_plan(plan, version, fault_kind_impl=None, platform="ledger"):
     full = []
     for e in events:
         d = {"k": e["k"], "ok": e.get("ok", "t"), "init": e.get("init", 0), "fault": e.get("fault", "none"),
+             "n": e.get("n", 0),
              "code": e.get("code", 0), "hascode": e.get("hascode", True), "shutdown": e.get("shutdown", False)}
         full.append(d)
     return full, ninit, first_len
@@ -132,6 +194,14 @@ def run(ctx):
         ctx.rng.shuffle(order)
         if version == 2:
             order = order[:ctx.pick(1400, len(order))]
+        boot_seq = boot_reference(version)
+        # (not at the exchange that leaves the bootloader menu: no answer is what the device normally gives there,
+        # and the code goes on by design)
+        # (nor at the first onboarding query or the retries query: the unchanged code stops the manager when it cannot
+        # learn those - by design, see C09)
+        apdu_idx = [i for i, t in enumerate(boot_seq) if i > 0 and not isinstance(t, str)
+                    and not (len(t) > 1 and t[1] in (0xFF, 0x45))]
+        n_boot = 0
         for k, pi in enumerate(order):
             plan = plans[pi]
             plat = platform_for(plan, k)
@@ -141,6 +211,21 @@ def run(ctx):
             tid = len(traces) + 1
             traces.append({"id": tid, "ninit": ninit, "deverr_abs": 905 if version == 2 else 2, "ev": ev})
             info[tid] = {"plan": plan, "version": version, "platform": plat}
+            # the same plan with the device power-cycled at the fault: it waits locked in the bootloader, the repair
+            # goes through unlock, app launch and a second opening; a time-out may hit any exchange of that long
+            # bring-up (early / in the PIN transfer / after the app was launched, by the abstract position)
+            if plat == "ledger" and plan["kind"] in ("write", "read") and plan["cmd"] != "uiHeartbeat" \
+                    and plan["follow"] != "uiHeartbeat" and (k % 3 == 0 or plan.get("btimeout", 0)):
+                bt = plan.get("btimeout", 0)
+                third = max(1, len(apdu_idx) // 3)
+                band = {2: apdu_idx[:third], 3: apdu_idx[third:2 * third], 4: apdu_idx[2 * third:]}.get(bt, apdu_idx)
+                bt_pos = ctx.rng.choice(band) if bt else None
+                ev, ninit, _ = run_plan(plan, version, platform="ledger", boot=True, boot_seq=boot_seq, bt_pos=bt_pos)
+                tid = len(traces) + 1
+                traces.append({"id": tid, "ninit": ninit, "deverr_abs": 905 if version == 2 else 2, "ev": ev})
+                info[tid] = {"plan": dict(plan, boot=True, bt_pos=bt_pos), "version": version, "platform": "ledger"}
+                n_boot += 1
+        res.coverage["repairs_through_the_bootloader_v%d" % (5 if version == 2 else 1)] = n_boot
     for n in ("NegOwed", "NegRepairs"):
         rn = tlc.run("Link", n + "_Link.cfg", workers=4)
         if not rn.violated:
@@ -166,6 +251,7 @@ def run(ctx):
         sig = "%s|v%d cmd=%s pos=%d kind=%s connfail=%d follow=%s%s" % (
             v["clause"], 5 if inf["version"] == 2 else 1, p["cmd"], p["pos"], p["kind"], p["connfail"],
             p["follow"] if v["at"] > 3 else "*", (" bringup-timeout@%d" % p["btimeout"]) if p.get("btimeout") else "") + \
+            (" repair-through-bootloader" if p.get("boot") else "") + \
             ((" plat=%s" % inf["platform"]) if inf.get("platform", "ledger") != "ledger" else "")
         res.violation(sig, "link-failure handling violates %s at event %s: %s" % (
             v["clause"], v["at"], json.dumps(p, sort_keys=True)),
